@@ -758,6 +758,9 @@ class Rtc(ContentElement):
     if not all(isinstance(x, Rt) for x in cs):
       raise ValueError("Children of rtc do not conform to requirements")
 
+    if self.has_children():
+      raise RuntimeError("Remove all rtc children before adding more.")
+
     count = len(self)
 
     try:
